@@ -23,7 +23,7 @@ ASSUMPTIONS = [
     'the watch stream delivers per-connection FIFO (as Kubernetes does); after a cancellation unprocessed tail events are allowed',
     'the API-server model and virtual time of kopfsim',
 ]
-BUDGET = {'quick': 150, 'thorough': 4000}
+BUDGET = {'quick': 300, 'thorough': 4000}
 EPS = 1e-10
 
 
@@ -46,8 +46,10 @@ def cmp_scenarios(draw):
                  for i in range(nobj)]
         events = first + [dict(e, obj=e['obj'] % nobj) for e in events[:draw(st.integers(0, 10))]]
     breaks = draw(st.lists(st.floats(0, 30).map(lambda x: round(x, 2)), max_size=3))
-    cancel = draw(st.one_of(st.none(), st.none(), st.floats(0, 40).map(lambda x: round(x, 3))))
-    return {'mode': 'cmp', 'idle': idle, 'limit': limit, 'nobj': nobj, 'exit_timeout': draw(st.sampled_from([0.5, 2.0, 10.0])),
+    # a cancellation at an arbitrary instant, or right after the arrival of one of the events (a backlog is likely then)
+    cancel = draw(st.one_of(st.none(), st.none(), st.floats(0, 40).map(lambda x: round(x, 3)),
+                            st.builds(lambda k, eps: {'after_event': k, 'eps': eps}, st.integers(0, 39), st.sampled_from([0.0, 1e-6, 0.01, 0.2]))))
+    return {'mode': 'cmp', 'idle': idle, 'limit': limit, 'nobj': nobj, 'exit_timeout': draw(st.sampled_from([0.5, 2.0, 10.0, 10.0])),
             'events': events, 'breaks': breaks, 'cancel': cancel, 'list_dur': draw(st.sampled_from([0.0, 0.0, 0.3]))}
 
 
@@ -150,7 +152,10 @@ def run_cmp(sc, res):
         for t in sc['breaks']:
             world.at(t0 + t, lambda: cluster.break_watches(rkey=KEX))
         t_cancel = None
-        if sc['cancel'] is not None:
+        if isinstance(sc['cancel'], dict):
+            t_cancel = plan[sc['cancel']['after_event'] % len(plan)][0] + sc['cancel']['eps']
+            world.at(t_cancel, lambda: loop.call_soon(task.cancel))
+        elif sc['cancel'] is not None:
             t_cancel = t0 + sc['cancel']
             world.at(t_cancel, lambda: loop.call_soon(task.cancel))
         horizon = max([p[0] for p in plan] + [t0]) + sum(e['dur'] for e in sc['events']) + 3 * sc['idle'] + sc['exit_timeout'] + 20.0
